@@ -187,6 +187,32 @@ def run(ctx):
                    "does not set IS_NEIGHBOUR = True on every path: directly heard stations never become neighbours "
                    "(greedy forwarding and the SCF decision see an empty neighbourhood)"), f"{s.fi.module.rel}:{s.node.lineno}")
 
+    # ... and the table update is reached for EVERY single-hop packet that passed DAD: it is an unconditional statement of the
+    # handler's try body and nothing returns in front of it (a `not newer than the stored PV -> return` shortcut in the handler
+    # skips the neighbour flag for a station first heard through a multi-hop packet of the same position fix)
+    for h in single.values():
+        for s in G.sinks_of(ctx, h):
+            if s.kind != "table-update" or s.fi is not h.fi:
+                continue
+            body_owner = None
+            for t_ in [x for x in ast.walk(h.fi.node) if isinstance(x, ast.Try)]:
+                if any(isinstance(b_, ast.Expr) and b_.value is s.node or isinstance(b_, ast.Assign) and b_.value is s.node for b_ in t_.body):
+                    body_owner = t_.body
+            if body_owner is None and any(isinstance(b_, (ast.Expr, ast.Assign)) and b_.value is s.node for b_ in h.fi.node.body):
+                body_owner = h.fi.node.body
+            early = []
+            if body_owner is not None:
+                idx = next(i_ for i_, b_ in enumerate(body_owner) if isinstance(b_, (ast.Expr, ast.Assign)) and b_.value is s.node)
+                for b_ in body_owner[:idx]:
+                    early += [r_ for r_ in ast.walk(b_) if isinstance(r_, (ast.Return, ast.Continue, ast.Break))]
+            ok = body_owner is not None and not early
+            ctx.ob("C08.neighbour", h.fi.short(), f"table-update-unconditional:{unparse(s.node.func).split('.')[-1]}", ok,
+                   "every single-hop packet that passed duplicate-address detection reaches the location-table update" if ok else
+                   ("the location-table update is skipped on some path (" +
+                    (f"early exit at line {early[0].lineno}" if early else "the update is nested in a condition") +
+                    "): the sender's entry is not refreshed and IS_NEIGHBOUR is not set although a beacon / SHB of it was processed"),
+                   f"{s.fi.module.rel}:{s.node.lineno}")
+
     # ---- no-self: every table update is dominated by DAD on the packet's source address (shared instances with C06.dad-first)
     cs = CallSummaries(P, ctx.flows)
     for h in handlers:
@@ -381,13 +407,22 @@ def run(ctx):
             if not (isinstance(r, FuncInfo) and r.cls is tst and r.name == "set_in_normal_timestamp_milliseconds"):
                 return False
             got = to_poly(P, owner.module, node.args[0])
+            # truncation comes after the scaling: `int(t) * 1000` is a whole-second clock in millisecond clothing
+            for b_ in ast.walk(node.args[0]):
+                if isinstance(b_, ast.BinOp) and isinstance(b_.op, ast.Mult):
+                    for side, other in ((b_.left, b_.right), (b_.right, b_.left)):
+                        k_ = P.try_fold(owner.module, other)
+                        if isinstance(k_, (int, float)) and k_ > 1 and any(
+                                isinstance(c_, ast.Call) and (dotted(c_.func) or "").split(".")[-1] in ("int", "floor", "trunc", "round")
+                                for c_ in ast.walk(side)):
+                            return False
             return got == ms_want or got == ms_want2
         resolved = [norm(pretty(unparse(nd))) for _, nd in final_nodes]
         ms = bool(final_nodes) and all(_ms_clock(o, nd) for o, nd in final_nodes)
-        ctx.ob("C08.expiry", m.short(), "clock-resolution", ms or ahead,
+        ctx.ob("C08.expiry", m.short(), "clock-resolution", ms,
                "the expiry clock " + ("has millisecond resolution" if ms else
                                       "is truncated to whole seconds while PV timestamps have millisecond resolution"
-                                      + (" (harmless under the ahead-of-clock alternative)" if ahead else
+                                      + (": an entry stays visible for up to 999 ms after its lifetime ended" if ahead else
                                          ": every entry stamped later in the current second is 'ahead' and is purged")) +
                f" [{'; '.join(r[:70] for r in resolved)}]", loc)
     key_identity(ctx)
